@@ -161,6 +161,7 @@ pub fn run_plan<T: HCfg>(plan: &Value, detail: u8, emit: &mut dyn FnMut(&Value))
         match &w.peers[p].sess {
             crate::world::Sess::P2P(s) => s.current_frame(),
             crate::world::Sess::Spec(s) => s.current_frame(),
+            crate::world::Sess::Sync(s) => s.current_frame(),
         }
     };
 
@@ -459,6 +460,7 @@ pub fn run_schedule<T: HCfg>(
                 let all_running = (0..n).all(|p| match &w.peers[p].sess {
                     crate::world::Sess::P2P(s) => s.current_state() == ggrs::SessionState::Running,
                     crate::world::Sess::Spec(s) => s.current_state() == ggrs::SessionState::Running,
+                    crate::world::Sess::Sync(_) => true,
                 });
                 if all_running && !moved {
                     break;
